@@ -68,9 +68,9 @@ func Lookup(id string) *core.Check {
 		}
 		wrapS := "one-token units repeated an exact number of times around 2^8 and 2^16 between two halves of an attack (counter wrap-around)"
 		aliasS := "every single-word table key with one letter written as its non-ASCII case-mapping alias (KELVIN SIGN, LONG S, dotless/dotted I, fullwidth)"
-		qualS := "every table word behind 15 owner / schema qualifiers; every literal form glued to 29 preceding tokens and followed by 15 kinds of white space and another literal; 11 attacks in 31 transport encodings; 814 words of SQL dialects (corpus/sqlwords.txt) in 30 positions each; English phrases with a word of SQL next to ordinary nouns; every seed twice, joined the ways a repeated parameter is joined; 46 token forms followed by every pair of 33 tail atoms (backslash, CR, LF, TAB, NUL ...) as the last bytes and in front of another token"
+		qualS := "every table word behind 15 owner / schema qualifiers; every literal form glued to 29 preceding tokens and followed by 15 kinds of white space and another literal; 11 attacks in 31 transport encodings; 814 words of SQL dialects (corpus/sqlwords.txt) in 30 positions each; English phrases with a word of SQL next to ordinary nouns; every seed twice, joined the ways a repeated parameter is joined; 46 token forms followed by every pair of 33 tail atoms (backslash, CR, LF, TAB, NUL ...) as the last bytes and in front of another token; number / string literals continued by 1-4 digit groups behind ten separators"
 		seamS := "two features k x 64 KiB apart (k = 1-32, thorough 1-64, each -1/0/+1 byte)"
-		attrS := "~170 attribute names of HTML / SVG / MathML x ~90 value shapes with empty, doubled or cut-off list, pair and reference syntax (incl. data: URLs with the delimiters in every order); one tag with 1..k distinct listed attribute names; every listed name behind 20 namespace-like prefixes; 238 element names (corpus/htmlelements.txt) in 18 frames; every seed twice, joined the ways a repeated parameter is joined"
+		attrS := "~170 attribute names of HTML / SVG / MathML x ~90 value shapes with empty, doubled or cut-off list, pair and reference syntax (incl. data: URLs with the delimiters in every order); one tag with 1..k distinct listed attribute names; every listed name behind 20 namespace-like prefixes; 238 element names (corpus/htmlelements.txt) in 18 frames; every seed twice, joined the ways a repeated parameter is joined; twenty raw-text / RCDATA / foreign elements followed by a complete or cut-off end tag of the same name with one NUL at every position, as the last bytes and before six tails"
 		aliasH := "tags, attributes, events and schemes of the live tables with one letter written as its non-ASCII case-mapping alias; one-token units repeated an exact number of times around 2^8 and 2^16"
 		var parts []string
 		switch id {
